@@ -159,7 +159,7 @@ func RunRoute(behs [][]Step, tr *Trace, env Env, sum *Summary) {
 			clsMap := setup["cls"].(map[string]any)
 			used := map[uint32]bool{}
 			all := append([]string{}, chain...)
-			all = append(all, "sib")
+			all = append(all, "sib", "r2") // r2: another agent that talks to the listener directly (a hop may be re-hung under it)
 			for i, h := range all {
 				c := "small"
 				if v, ok := clsMap[h].(string); ok {
@@ -210,6 +210,31 @@ func RunRoute(behs [][]Step, tr *Trace, env Env, sum *Summary) {
 				req := s.req
 				_ = req
 				switch op {
+				case "Rehang":
+					// hop `owner` (with everything behind it) reconnects through r2
+					if w.Agent(s.ids["r2"]) == nil {
+						if rr := w.Request(refdemon.Register(s.ids["r2"], s.keys["r2"], refdemon.DefaultMeta("r2"))); rr.Status != 200 {
+							panic("harness-error: r2 registration failed")
+						}
+					}
+					connect("r2", owner)
+					chain = append([]string{"r2"}, chain[s.index[owner]:]...)
+					s.first = chain[0]
+					s.index = map[string]int{}
+					for i, h := range chain {
+						s.index[h] = i
+					}
+					res["ok"] = true
+				case "LateDisconnect":
+					// the former parent (kind) reports its link to `owner` gone
+					b := &refdemon.Buf{}
+					b.I32(refdemon.PivotSmbDisconnect).I32(1).I32(s.ids[owner])
+					former := st.Str("kind")
+					rr := w.RequestWith(refdemon.Packages(s.ids[former], s.keys[former], []refdemon.Sub{{Cmd: refdemon.CmdPivot, Body: b.B}}), 8*time.Second)
+					if rr.Panic != "" || rr.Timeout {
+						fail(si, map[bool]string{true: "hang", false: "panic"}[rr.Timeout], "LateDisconnect", firstLines(rr.Panic, 14))
+					}
+					res["ok"] = true
 				case "Down":
 					// two tasks for the target before the first hop checks in: every wrapped task queued so far
 					// (also those left over from earlier steps) must come out, in order, each intact
